@@ -303,7 +303,9 @@ def detyz_to_eta_and_radpix(coor, dety_center, detz_center):
     
     radcoor = coor - n.array([dety_center,detz_center])
     radpix = n.sqrt(n.sum(radcoor**2))
-    if radpix < 1:
+    # a radius of exactly one pixel, recomputed from the coordinates, can come
+    # out as 0.9999999999999889: allow for that rounding
+    if radpix < 1 - 1e-9:
         cos_eta = 1
     else:
         cos_eta = radcoor[1]/radpix
